@@ -62,6 +62,7 @@ def make(d, k, spec, seed):
         t = np.arange(shape[0] * shape[1]).reshape(shape[0], shape[1])
         inputs.write_segy(sgy, cube, 10 + 3 * np.arange(shape[0]), -5 + 2 * np.arange(shape[1]), 4.0 * np.arange(shape[2]),
                           headers={segyio.TraceField.TRACE_SEQUENCE_LINE: t + 1, segyio.TraceField.CDP: 5 * t + 2, segyio.TraceField.CDP_TRACE: 5 * t + 2,
+                               segyio.TraceField.SourceX: 7 * t - 3, segyio.TraceField.GroupX: 7 * t - 3, segyio.TraceField.SourceMeasurementUnit: 7 * t - 3,      # (duplicates far apart in the table)
                                    segyio.TraceField.ShotPoint: 1000 - t})
         writers.segy_to_sgz(sgy, p, 2, None, header_detection='heuristic')
     elif route == 'segy':
